@@ -276,7 +276,8 @@ func (p Proxy) ServeHTTP(w http.ResponseWriter, r *http.Request) (int, error) {
 			return 0, nil
 		}
 
-		if backendErr == httpserver.ErrMaxBytesExceeded {
+		// (net/http wraps the body's error in a *net.OpError when it copied the body with TCPConn.ReadFrom)
+		if errors.Is(backendErr, httpserver.ErrMaxBytesExceeded) {
 			return http.StatusRequestEntityTooLarge, backendErr
 		}
 
